@@ -885,7 +885,7 @@ def replay_value(task, vals):
     if r.dim() != 0:
         return True, f'value has shape {tuple(r.shape)}'
     got = float(r)
-    if not math.isfinite(got) or abs(got - float(want)) > 1e-8 * max(1.0, abs(float(want))):
+    if not math.isfinite(got) or abs(got - float(want)) > 5e-7 * max(1.0, abs(float(want))):
         return True, (f'{type(obj).__name__} returned {got!r} but {wl} = {float(want)!r} '
                       f'(ratio {got / float(want):.6g}; posterior set exactly, draws {[c["z"].reshape(-1).tolist() for c in log]})')
     return False, f'agree ({got!r})'
@@ -971,12 +971,13 @@ def tasks_for(tier):
                 for sh in shapes1:
                     ts.append((kind, 2, o, op, sh))
             for o, op in multi:
-                for sh in ((1, 2), (2, 1), (2, 2), (2, 3), (3, 2)):
+                for sh in ((1, 2), (2, 1), (2, 2), (2, 3), (3, 2)) if kind in ('normal', 'gamma_exp') else ((2, 2), (2, 3), (3, 1)):
                     ts.append((kind, 1 if sh != (2, 2) else 2, o, op, sh))
         # constructed with one shape, called with samples=<another> (the convergence monitor's idiom)
-        for kind in ('normal', 'gamma_exp', 'lognormal_obs'):
+        for kind, pairs in (('normal', OVERRIDES_QUICK), ('gamma_exp', [((2, 2), (2, 3)), ((2,), (2, 3)), ((3,), (2,))]),
+                            ('lognormal_obs', [((2, 2), (2, 3))])):
             for o, op in OVERRIDE_OBJECTIVES:
-                for ctor, call in OVERRIDES_QUICK:
+                for ctor, call in pairs:
                     if not (op.get('entropy') and len(call) == 2):
                         ts.append((kind, 2 if kind == 'normal' else 1, o, op, ctor, call))
         for fam in ('normal+gamma_exp', 'lognormal_obs+gamma_poisson', 'beta_binomial+lognormal_factor'):
